@@ -934,7 +934,7 @@ def run(ck: Check):
                 ck.mismatch("driver logarithm differs from mpmath", {"p": p, "q": q, "got": got, "want": want})
         direct_fails = []
         small_correspondence(ck, drv, 240 if ck.thorough() else 50, direct_fails)
-        fails = direct_fails + sweep(ck, drv, 600.0 if ck.thorough() else 50.0)
+        fails = direct_fails + sweep(ck, drv, 600.0 if ck.thorough() else 60.0)
         fails += mixed_sweep(ck, drv, 240.0 if ck.thorough() else 30.0)
     finally:
         drv.close()
